@@ -315,3 +315,27 @@ class Sig:
         old, self.value = self.value, v
         for cb in list(self.subs):
             cb(value=v, old_value=old, obj=self)
+
+
+class AMotor(Motor):
+    """a Motor whose stop() is a coroutine that really suspends (ophyd-async style): awaits inside the engine's pause
+    sequence, suspension start and clean-up become scheduling points"""
+
+    async def stop(self, success=True):
+        import asyncio
+        self._log("stop")
+        await asyncio.sleep(0)
+
+
+class APaus(Det):
+    """a detector with coroutine pause()/resume() that really suspend"""
+
+    async def pause(self):
+        import asyncio
+        self._log("pause")
+        await asyncio.sleep(0)
+
+    async def resume(self):
+        import asyncio
+        self._log("resume")
+        await asyncio.sleep(0)
